@@ -5,7 +5,12 @@ CONSTANTS
   MaxSend = 1000000
   Wall = {}
   MaxPublish = 1000000
+  Handles = {"p1", "p2", "p3"}
+  GCaps = {1}
+  SplitCommit = FALSE
   PendingWithoutWake = FALSE
+  SkipBudget = 0
+  BudgetSelfWake = FALSE
   ClockAsCoded = FALSE
 INVARIANTS
   C17_NoLostWakeup
@@ -15,5 +20,9 @@ INVARIANTS
   C16_YieldedInOrder
   C16_TimestampsStrictlyIncrease
   C16_PublishedDistinct
+  C16_PerHandleInOrder
+  C16_ClockIsLastDrawn
+PROPERTIES
+  C16_ClockNeverRegresses
 POSTCONDITION TraceAccepted
 CHECK_DEADLOCK FALSE
